@@ -13,6 +13,7 @@ import (
 	"encoding/json"
 	"fmt"
 	"os"
+	"reflect"
 	"runtime/debug"
 	"strings"
 	"sync"
@@ -269,3 +270,6 @@ func ReplayMain(table map[string]func()) {
 // AllowTagsInFresh lifts the default modelling assumption that opaque crypto outputs (ciphertexts, wrapped keys,
 // generated keys) contain no envelope tag sequence (three '%' or four '"' in a row). No-op natively.
 func AllowTagsInFresh() {}
+
+// DeepEqual is structural equality (reflect.DeepEqual natively; a single term symbolically).
+func DeepEqual(a, b interface{}) bool { return reflect.DeepEqual(a, b) }
